@@ -76,12 +76,17 @@ func CheckC10(h *History) []Violation {
 				// sequence number of the record this session's create opened
 				for _, c := range o.Reported {
 					found := int64(-1)
+					foundSess := ""
 					for _, r := range o.Mem {
 						for _, rc := range r.Containers {
 							if rc.Seq == int64(c.Seq) {
 								found = r.LocalSeq
+								foundSess = r.Session
 							}
 						}
+					}
+					if found == s.localSeq && foundSess != o.Ref {
+						found = -2 // a record with the right number but naming another session (a clone of a foreign record)
 					}
 					if found != s.localSeq {
 						v.add("C10", "wrong-record", "op="+o.Op.Kind, o.Op.ID,
@@ -269,6 +274,21 @@ func CheckC19(h *History) []Violation {
 		for i := range o.Units {
 			if o.Units[i].RG == u.RG {
 				ui = &o.Units[i]
+			}
+		}
+		// a final-unit indication in the response must come from this op's own credit answer
+		if ui != nil && ui.FUI {
+			ownFUI, seen := false, false
+			for _, m := range h.Msgs {
+				if m.Task == o.Task && m.Op == o.Op.ID && m.Cmd == 272 && !m.Request && m.ToClient && m.Delivered {
+					seen = true
+					ownFUI = ownFUI || m.F.FUI
+				}
+			}
+			if seen && !ownFUI {
+				v.add("C19", "final-unit-cross-talk", "", o.Op.ID,
+					"un-faulted update op %d is answered with a final-unit indication, but none of the credit-control answers to its own requests carries one (an earlier answer, to another request, did)", o.Op.ID)
+				return v.list
 			}
 		}
 		if ui == nil || !ui.HasGrant {
